@@ -119,7 +119,10 @@ pub fn judge(scn: &Scenario, res: &ExecResult, _base: Option<&ExecResult>) -> Ve
         // so equality with the fault-free rate is not demanded
         // a spectator whose 60-frame ring was overrun during the outage reports
         // SpectatorTooFarBehind from then on: documented behaviour (C06), not a silent wedge
-        if nt.is_spec && nt.calls.last().map(|c| c.res == crate::world::R_TOO_FAR_BEHIND && c.behind > 60).unwrap_or(false) {
+        // (only when the outage itself was long enough to overrun the ring - a spectator that
+        // falls 60 frames behind AFTER a short outage was wedged by it)
+        let long_outage = scn.outages.iter().map(|o| o.len).max().unwrap_or(0) >= 55;
+        if long_outage && nt.is_spec && nt.calls.last().map(|c| c.res == crate::world::R_TOO_FAR_BEHIND && c.behind > 60).unwrap_or(false) {
             continue;
         }
         if 3 * r < want || (want > 0 && r <= 0) {
